@@ -99,6 +99,17 @@ def shard(binpath, seed, sh, ndocs, rsa_share):
             w2["signatures"][j]["sig"] = b.hex()
             cases.append({"op": "block", "text": json.dumps(w2), "threshold": len(signers), "auth": auth,
                           "meta": dict(base, writer="compact", expect="err", neg="one signature bit was flipped")})
+        # negative: ed25519 / ECDSA key material imported (DER) under a scheme that does not belong to it
+        k0 = signers[0]
+        if len(signers) == 1 and keyclass(k0) in ("ed", "edp", "ec"):
+            spki = W.ki[k0]["spki"]
+            if keyclass(k0) != "ec":
+                spki = "302a300506032b6570032100" + W.ki[k0]["raw"]
+            for foreign in (["rsassa-pss-sha256", "ecdsa-sha2-nistp256", "bogus"] if keyclass(k0) != "ec" else ["ed25519", "rsassa-pss-sha512", "bogus"]):
+                cases.append({"op": "block", "text": json.dumps(wire), "threshold": 1, "auth": [{"spki": spki, "scheme": foreign}],
+                              "relabel_to_auth0": True,
+                              "meta": dict(base, writer="compact", expect="err",
+                                           neg="the same ed25519/ECDSA key material was declared with a foreign scheme")})
         # negative: same key material declared under the other scheme
         for k in signers:
             if k in SWAP:
@@ -139,5 +150,6 @@ def main(ctx):
         required=["positive_verified", "via:new", "via:builder", "via:raw_builder", "via:api", "via:api_builder", "writer:pretty", "writer:cjson",
                   "writer:cjson_pretty", "keys:ed", "keys:ec", "keys:rsa", "doc:link", "doc:layout",
                   "neg:one signature bit was flipped", "neg:verified under a different key",
-                  "neg:the same RSA key material was declared with the other PSS scheme"],
+                  "neg:the same RSA key material was declared with the other PSS scheme",
+                  "neg:the same ed25519/ECDSA key material was declared with a foreign scheme"],
         min_evals=1000)
